@@ -25,7 +25,7 @@ theorem C09_slot_filled (cfg : ECfg) (al : List (Str × Val)) (f : Nat) (nm : To
 
 theorem C09_filler_scope (cl : Closure) (s s' : RState) :
     (fillerLeave s s').env.own = updateOwn s.env.own s'.env.rcontext ∧ (fillerLeave s s').env.frames = s.env.frames ∧
-    (fillerLeave s s').x.token = s.x.token ∧ (fillerEnter cl s).env.own = s.env.own ∧
+    (fillerLeave s s').x.token = none ∧ (fillerEnter cl s).env.own = s.env.own ∧
     (fillerEnter cl s).env.topFrame.domain = cl.domain := by
   simp [fillerLeave, fillerEnter, Env.topFrame]
 
